@@ -616,7 +616,7 @@ class Runner(object):
                 replaced = any(j in cur and cur[j] != old[j] for j in old if j <= max(gone))
                 if not conflict and not replaced:
                     self.flag("restart:acknowledged-entries-lost",
-                              "node %s (running, not killed) had acknowledged up to index %d; after this step the entries %s are "
+                              "node %s (running: no kill in this step) had acknowledged up to index %d; after this step the entries %s are "
                               "neither in its log (%d..%d) nor under its applied snapshot (applied=%d), and no entry at or below them "
                               "was replaced by one of another term" % (i, hi, sorted(gone)[:8], first, lg[-1][1], applied))
         self.prev_log[i] = (g, lkey, cur)
@@ -1979,6 +1979,8 @@ def plan(ctx):
         fam("snapshot_partial", 3, True, 1, 1, VOTE, 1)
         fam("snapshot_partial", 3, False, 0, 1, VOTE, 1)
         fam("snapshot_stale_reset", 3, True, 1, 1, ("between",), 1)
+        fam("snapshot_stale_dup", 3, True, 1, 1, ("between",), 1)
+        fam("snapshot_stale_dup", 3, False, 0, 1, ("between",), 1)
         fam("snapshot_stale_reset", 3, False, 0, 1, ("between",), 1)
         fam("snapshot_late", 3, True, 6, 1, VOTE, 4)
         fam("replication", 3, True, 4, 1, ALL, 12)
